@@ -290,21 +290,6 @@ func parseReadsCase(line string) (Feat, []Op, []Probe) {
 	return f, ops, probes
 }
 
-// sxString prints a parsed s-expression back (used to reuse parseHistCase)
-func sxString(x *Sx) string {
-	if x.IsLst {
-		out := make([]string, len(x.List))
-		for i, y := range x.List {
-			out[i] = sxString(y)
-		}
-		return L(out...)
-	}
-	if x.Str {
-		return Q(x.Atom)
-	}
-	return x.Atom
-}
-
 func cmdReads(args []string) int {
 	f := ParseFlags(args)
 	out := NewOut(f.Out)
